@@ -83,10 +83,11 @@ class Report:
         out = []
         for v, e in known:
             out.append('KNOWN-FINDING: property=%s %s [%s at %s]' % (self.pid, e.get('what', v.msg), fk_short(v), v.where))
-        os.makedirs(os.path.join(VERIF, 'violations'), exist_ok=True)
+        vdir = os.path.join(VERIF, 'violations') if os.environ.get('ZL_REPO', '/repo') == '/repo' else '/tmp/zlmut/violations'
+        os.makedirs(vdir, exist_ok=True)
         for v in new:
             h = hashlib.sha1(v.full_key().encode()).hexdigest()[:12]
-            path = os.path.join(VERIF, 'violations', '%s-%s.json' % (self.pid, h))
+            path = os.path.join(vdir, '%s-%s.json' % (self.pid, h))
             with open(path, 'w') as f:
                 json.dump({'property': self.pid, 'key': v.full_key(), 'instance': v.to_json(),
                            'rule_text': self.rules_doc.get(v.rule, '')}, f, indent=1)
@@ -143,11 +144,13 @@ class Report:
             'wall_s': round(time.time() - self.t0, 3),
             'violations': len(new),
         }
-        os.makedirs(os.path.join(VERIF, 'evidence'), exist_ok=True)
-        tmp = os.path.join(VERIF, 'evidence', '%s.json.tmp%d' % (self.pid, os.getpid()))
+        # evidence of runs against a scratch tree (ZL_REPO set, checker self-tests) never lands in /verif/evidence
+        evdir = os.path.join(VERIF, 'evidence') if os.environ.get('ZL_REPO', '/repo') == '/repo' else '/tmp/zlmut/evidence'
+        os.makedirs(evdir, exist_ok=True)
+        tmp = os.path.join(evdir, '%s.json.tmp%d' % (self.pid, os.getpid()))
         with open(tmp, 'w') as f:
             json.dump(ev, f, indent=1)
-        os.rename(tmp, os.path.join(VERIF, 'evidence', '%s.json' % self.pid))
+        os.rename(tmp, os.path.join(evdir, '%s.json' % self.pid))
         return out, len(new)
 
 
